@@ -35,7 +35,7 @@ FRESH = None
 
 
 def strategy(tier):
-    cfg = gen.Cfg(max_tasks=10 if tier == "quick" else 25, sync=True, ctx=("rec", "ov"), failctx=True, na=True, dag=True, itemvalue=True,
+    cfg = gen.Cfg(max_tasks=10 if tier == "quick" else 25, sync=True, ctx=("rec", "ov"), failctx=True, na=True, dag=True, itemvalue=True, tools=("dd", "dd2", "alru", "agen", "amap", "amin", "retry", "cwc"),
                   flush_faults=("raise", "hard"), ok_w=8, convs=("call", "value", "wrapper"),
                   shapes=("reentry", "reentry", "tree", "comb", "chain", "diamond", "free", "free", "stagger"))
     entry = st.fixed_dictionaries({"prog": gen.programs(cfg), "stack_limit": st.sampled_from([None, None, None, None, 2, 4, 7])})
